@@ -655,3 +655,32 @@ func nodesRaw(ns []Node) string {
 	}
 	return b.String()
 }
+
+// nodesRawNC: source text without comment markers.
+func nodesRawNC(ns []Node) string {
+	var b strings.Builder
+	for _, n := range ns {
+		writeNodeRawNC(&b, n)
+	}
+	return b.String()
+}
+
+func writeNodeRawNC(b *strings.Builder, n Node) {
+	b.WriteString(n.T.Raw)
+	switch n.T.K {
+	case KFunction, KLParen, KLBracket, KLBrace:
+		for _, k := range n.Kids {
+			writeNodeRawNC(b, k)
+		}
+		if n.Closed {
+			switch closerOf(n.T.K) {
+			case KRParen:
+				b.WriteByte(')')
+			case KRBracket:
+				b.WriteByte(']')
+			case KRBrace:
+				b.WriteByte('}')
+			}
+		}
+	}
+}
